@@ -80,6 +80,22 @@ Example ex_replay :
   r_allowed (snd (mfilter cfg0 st3 x_Secret)) = true.
 Proof. vm_compute. auto. Qed.
 
+(* c10_membranes_isolated: membrane 0 learns "secret" at CRITICAL, membrane 1
+   imports it, membrane 0 re-learns it at SUSPICIOUS and forgets it: membrane 1,
+   never touched, still blocks a matching input it has not seen, at level 3 *)
+Definition s_learn3 := mkSig 7 [115;101;99;114;101;116] (KSub [115;101;99;114;101;116]) 3.
+Definition s_learn1 := mkSig 8 [115;101;99;114;101;116] (KSub [115;101;99;114;101;116]) 1.
+Definition colony := [mkMember cfg0 st0; mkMember cfg0 st0].
+Definition others1 := [SOp 0 (OLearn s_learn1); SOp 0 (OForget (s_key s_learn1)); SOp 0 (OSetThreshold 3)].
+Example ex_colony :
+  let sys1 := fst (sys_run colony [SOp 0 (OLearn s_learn3); STransfer 0 1]) in
+  forallb (fun o => negb (touches 1 o)) others1 = true /\
+  map (fun x => (fst x, r_allowed (snd x), r_level (snd x), map s_id (r_matched (snd x))))
+      (snd (sys_run (fst (sys_run sys1 others1)) [SOp 1 (OFilter x_Secret)])) = [(1%nat, false, 3, [7])] /\
+  map (fun x => (fst x, r_allowed (snd x), r_level (snd x)))
+      (snd (sys_run (fst (sys_run sys1 others1)) [SOp 0 (OFilter x_Secret)])) = [(0%nat, true, 0)].
+Proof. vm_compute. auto. Qed.
+
 (* c10_rate_bound: limit 2; three requests in the same instant, the third is
    rate-limited; 59.5 s later still limited; at exactly 60 s admitted again *)
 Example ex_rate :
